@@ -1,31 +1,22 @@
 package main
 
 import (
+	"bytes"
+	"fmt"
 	"os"
-	"runtime"
-	"runtime/pprof"
+	"runtime/debug"
+	"strconv"
 
 	"github.com/coregx/coregex"
 )
 
 func main() {
-	runtime.MemProfileRate = 1
+	mb, _ := strconv.Atoi(os.Args[3])
+	debug.SetMaxStack(mb << 20)
+	n, _ := strconv.Atoi(os.Args[2])
 	re := coregex.MustCompile(os.Args[1])
-	h := []byte(os.Args[2])
-	eng := re.VerifEngine()
-	re.Count(h, -1)
-	eng.FindIndices(h)
-	runtime.GC()
-	for i := 0; i < 1000; i++ {
-		switch os.Args[3] {
-		case "count":
-			re.Count(h, -1)
-		case "find":
-			eng.FindIndices(h)
-		}
-	}
-	runtime.GC()
-	f, _ := os.Create("/verif/work/mem.prof")
-	pprof.Lookup("allocs").WriteTo(f, 0)
-	f.Close()
+	h := bytes.Repeat([]byte("a"), n)
+	done := make(chan bool)
+	go func() { fmt.Println(re.Match(h)); done <- true }()
+	<-done
 }
